@@ -106,8 +106,10 @@ def within (fs : List Gene) (q : Loc) (ov : Bool) : List Gene :=
 
 /-! ### areas (CDS collections) -/
 
+/-- the collection's class; `sideProto` = `SideloadedProtocluster` (a protocluster whose `definition_cdses`
+    is always empty) -/
 inductive Kind where
-  | proto | cand | sub | region
+  | proto | cand | sub | region | sideProto
 deriving DecidableEq, Repr, Inhabited
 
 /-- a `CDSCollection` object: identity, class, location, (protoclusters) core location and product,
@@ -194,6 +196,7 @@ def chooseSection (areaLoc : Loc) (g : Gene) (given : Option Section) : Option S
 --   for child in self._children: if cds.is_contained_by(child): child.add_cds(cds, section)
 --   Protocluster: if cds.is_contained_by(self.core_location) and a CORE function names self.product: add to definition
 --   Region: cds.region = self
+--   SideloadedProtocluster: `definition_cdses` always returns the empty set, so nothing is recorded for it
 -- (a child's own containment check is the `if` that guards the call)
 mutual
 def pushDown (g : Gene) (given : Option Section) : AreaT → Rec → Rec
@@ -257,6 +260,7 @@ def addArea (r : Rec) (a : AreaT) : E Rec :=
   else if a.loc.end > r.len then throw "assertion"
   else match a.kind with
     | .proto => addFound { r with protos := r.protos ++ [a] } a
+    | .sideProto => addFound { r with protos := r.protos ++ [a] } a
     | .cand => addFound { r with cands := r.cands ++ [a] } a
     | .sub => addFound { r with subs := r.subs ++ [a] } a
     | .region =>
